@@ -74,6 +74,12 @@ func checkC16(c *Ctx) {
 			}
 		case *ssa.Send:
 			sends = append(sends, x)
+		case *ssa.Select:
+			for _, st := range x.States {
+				if st.Dir == types.SendOnly {
+					c.Fail("C16-R1", "readAndWrite:record-send-is-select", x.Pos(), "refuted", "the hand-over to the recorder is one arm of a select: when another arm (timeout, default) wins, the block is never recorded")
+				}
+			}
 		}
 	})
 	if read == nil || len(writes) == 0 || len(sends) == 0 {
